@@ -98,6 +98,11 @@ func newHalf(rclass int) *pipeHalf {
 type ConnFaults struct {
 	FailWriteAt int   // 1-based index of the first Write that fails (0 = never)
 	WriteSplit  []int // sizes into which this endpoint's writes are re-cut, cycled (nil = one segment per Write)
+	// The peer stops reading: the BlockWriteAt-th Write (1-based) finds the send window
+	// full and blocks until BlockFor has passed (0: for ever), the write deadline
+	// expires or this endpoint is closed by another goroutine.
+	BlockWriteAt int
+	BlockFor     Dur
 }
 
 // SimConn is one endpoint of a simulated full-duplex connection.
@@ -107,13 +112,15 @@ type SimConn struct {
 	rd, wr *pipeHalf
 	faults ConnFaults
 
-	wmu        sync.Mutex
-	nwrites    int
-	splitIx    int
-	lateWrites int // Write calls after this endpoint was closed
-	wdeadline  int64
-	closeHook  func() // called once, on the first Close of this endpoint
-	closeOnce  sync.Once
+	wmu             sync.Mutex
+	nwrites         int
+	splitIx         int
+	lateWrites      int // Write calls after this endpoint was closed
+	blocked         int // Writes that found the send window full
+	blockedTimeouts int // ... and ended by the write deadline
+	wdeadline       int64
+	closeHook       func() // called once, on the first Close of this endpoint
+	closeOnce       sync.Once
 
 	local, remote simAddr
 }
@@ -157,7 +164,21 @@ var errPipe = &net.OpError{Op: "write", Net: "sim", Err: syscall.EPIPE}
 
 func closedErr(op string) error { return &net.OpError{Op: op, Net: "sim", Err: net.ErrClosed} }
 
+// ownInstant moves the caller to an instant of this endpoint's class unless it
+// is at one already. A goroutine of the library can be woken by the library's
+// own synchronisation (a pipe closed by Server.Close, a result channel) at
+// another actor's instant, while that actor is still running; what it then does
+// to the connection must not depend on how the two were scheduled. At its own
+// instant the other actor has run to its next blocking point, because the fake
+// clock only moves when every goroutine is blocked.
+func (c *SimConn) ownInstant() {
+	if int(time.Now().UnixNano()%classMod) != c.rd.rclass%classMod && !underConnLock() {
+		sleepClass(c.rd.rclass, 0)
+	}
+}
+
 func (c *SimConn) Read(b []byte) (int, error) {
+	c.ownInstant()
 	h := c.rd
 	h.mu.Lock()
 	defer h.mu.Unlock()
@@ -253,6 +274,7 @@ func (h *pipeHalf) ensureWaker(now, target int64) {
 }
 
 func (c *SimConn) Write(b []byte) (int, error) {
+	c.ownInstant()
 	c.wmu.Lock()
 	if c.wdeadline != 0 && time.Now().UnixNano() >= c.wdeadline {
 		c.wmu.Unlock()
@@ -289,6 +311,11 @@ func (c *SimConn) Write(b []byte) (int, error) {
 	if c.faults.FailWriteAt > 0 && nw >= c.faults.FailWriteAt {
 		return 0, errPipe
 	}
+	if c.faults.BlockWriteAt > 0 && nw == c.faults.BlockWriteAt && len(b) > 0 && !underConnLock() {
+		if err := c.blockedWrite(h); err != nil {
+			return 0, err
+		}
+	}
 	if len(b) == 0 {
 		return 0, nil
 	}
@@ -319,6 +346,56 @@ func (c *SimConn) Write(b []byte) (int, error) {
 	}
 	h.cond.Broadcast()
 	return len(b), nil
+}
+
+// blockedWrite parks the writer as a full send window does. Called with h.mu
+// held (h is the outgoing half), never under Conn.locker.
+func (c *SimConn) blockedWrite(h *pipeHalf) error {
+	c.wmu.Lock()
+	c.blocked++
+	c.wmu.Unlock()
+	var until int64
+	if c.faults.BlockFor > 0 {
+		until = time.Now().UnixNano() + int64(c.faults.BlockFor)
+	}
+	for {
+		now := time.Now().UnixNano()
+		if h.wclosed || h.reset {
+			return closedErr("write")
+		}
+		if h.rclosed {
+			return nil // the peer is gone: the kernel takes the octets
+		}
+		c.wmu.Lock()
+		wd := c.wdeadline
+		c.wmu.Unlock()
+		if wd != 0 && now >= wd {
+			c.wmu.Lock()
+			c.blockedTimeouts++
+			c.wmu.Unlock()
+			return &net.OpError{Op: "write", Net: "sim", Err: os.ErrDeadlineExceeded}
+		}
+		if until != 0 && now >= until {
+			return nil
+		}
+		target := until
+		if wd != 0 && (target == 0 || wd < target) {
+			target = wd
+		}
+		if target != 0 {
+			d := Dur(target - now)
+			go func() {
+				time.Sleep(d)
+				h.mu.Lock()
+				h.cond.Broadcast()
+				h.mu.Unlock()
+			}()
+		}
+		h.cond.Wait()
+		h.mu.Unlock()
+		sleepClass(c.rd.rclass, 0)
+		h.mu.Lock()
+	}
 }
 
 // Close closes this endpoint: local reads fail, the peer reads EOF after the
